@@ -211,13 +211,41 @@ impl Env {
         v
     }
 
-    fn event(&self, w: &mut World, a: &Act, reset: bool, sink: &mut Sink) -> bool {
+    /// `pend`: the pending proposal per code implied by the ACCEPTED operations of the history so far
+    /// (ghost kept by the driver, independent of the account's next_owner field); updated here.
+    fn event(&self, w: &mut World, a: &Act, reset: bool, pend: &mut Pend, sink: &mut Sink) -> bool {
         let pre = self.project(w);
         let r = self.exec(w, a);
         let post = self.project(w);
         sink.emit(json!({"op": a.op, "u": a.u, "c": a.c, "v": a.v, "ok": r.ok, "err": r.label(),
-            "panic": r.panic, "reset": reset, "pre": pre, "post": post}));
+            "panic": r.panic, "reset": reset, "pend": self.pend_json(pend), "pre": pre, "post": post}));
+        if r.ok {
+            note_accepted(pend, a);
+        }
         r.ok
+    }
+
+    fn pend_json(&self, pend: &Pend) -> Value {
+        let mut m = Map::new();
+        for (c, _) in &self.codes {
+            m.insert(c.clone(), json!(pend.get(c).cloned().unwrap_or_else(|| "none".to_string())));
+        }
+        Value::Object(m)
+    }
+}
+
+type Pend = HashMap<String, String>;
+
+/// the specification's bookkeeping of proposals: Transfer proposes, Cancel / Accept / Create clear
+fn note_accepted(pend: &mut Pend, a: &Act) {
+    match a.op.as_str() {
+        "transfer" => {
+            pend.insert(a.c.clone(), a.v.clone());
+        }
+        "cancel" | "accept" | "create" => {
+            pend.remove(&a.c);
+        }
+        _ => {}
     }
 }
 
@@ -236,8 +264,8 @@ fn replay(args: &Args) {
     let mut base = World::new();
     let env = Env::new(&mut base, args.num("users", 3) as usize, args.num("codes", 2) as usize);
     let actions = env.actions();
-    let mut cache: HashMap<String, World> = HashMap::new();
-    cache.insert(String::new(), base);
+    let mut cache: HashMap<String, (World, Pend)> = HashMap::new();
+    cache.insert(String::new(), (base, Pend::new()));
     let mut rows: Vec<Value> = input.lines().filter(|l| !l.trim().is_empty()).map(|l| serde_json::from_str(l).unwrap()).collect();
     rows.sort_by_key(|r| r["path"].as_array().map(|p| p.len()).unwrap_or(0));
     let (mut states, mut unreachable, mut state_mismatch) = (0usize, 0usize, 0usize);
@@ -248,15 +276,17 @@ fn replay(args: &Args) {
         while !cache.contains_key(&path_key(&path[..k])) {
             k -= 1;
         }
-        let mut w = cache[&path_key(&path[..k])].clone();
+        let (mut w, mut pend) = cache[&path_key(&path[..k])].clone();
         let mut reached = true;
         for j in k..path.len() {
-            let r = env.exec(&mut w, &act_of(&path[j]));
+            let a = act_of(&path[j]);
+            let r = env.exec(&mut w, &a);
             if !r.ok {
                 reached = false;
                 break;
             }
-            cache.insert(path_key(&path[..=j]), w.clone());
+            note_accepted(&mut pend, &a);
+            cache.insert(path_key(&path[..=j]), (w.clone(), pend.clone()));
         }
         if !reached {
             // the code rejected a step the specification accepts: reported as drift by the trace of
@@ -271,7 +301,7 @@ fn replay(args: &Args) {
         for (n, a) in actions.iter().enumerate() {
             let mut w2 = w.clone();
             let _ = n;
-            env.event(&mut w2, a, true, &mut sink);
+            env.event(&mut w2, a, true, &mut pend.clone(), &mut sink);
         }
     }
     let n = sink.finish();
@@ -289,12 +319,34 @@ fn random(args: &Args) {
     let (mut accepted, mut histories) = (0usize, 0usize);
     while sink.n < n {
         let mut w = base.clone();
+        let mut pend = Pend::new();
         histories += 1;
         // most histories start with some users prepared so that deep states are reached
         let skip = rng.below(4) == 0;
+        // every fifth history: a completed transfer, then acceptances WITHOUT a new proposal (by the
+        // previous owner and by a third party), then a second round trip
+        let scripted = !skip && histories % 5 == 0;
+        let mk = |op: &str, u: &str, c: &str, v: &str| Act { op: op.into(), u: u.into(), c: c.into(), v: v.into() };
+        let (a, b, t) = (rng.pick(&["u1", "u2"]).to_string(), "u3".to_string(), "u4".to_string());
+        let c = rng.pick(&["c1", "c2", "c3"]).to_string();
+        let script = vec![
+            mk("create", &a, &c, "none"),
+            mk("accept", &b, &c, "none"),
+            mk("transfer", &a, &c, &b),
+            mk("accept", &t, &c, "none"),
+            mk("accept", &b, &c, "none"),
+            mk("accept", &a, &c, "none"),
+            mk("accept", &t, &c, "none"),
+            mk("cancel", &b, &c, "none"),
+            mk("transfer", &b, &c, &a),
+            mk("cancel", &b, &c, "none"),
+            mk("accept", &a, &c, "none"),
+        ];
         for i in 0..len {
             let a = if !skip && i < env.users.len() {
                 Act { op: "prepare".into(), u: env.users[i].0.clone(), c: "none".into(), v: "none".into() }
+            } else if scripted && i < env.users.len() + script.len() {
+                script[i - env.users.len()].clone()
             } else {
                 // bias towards operations that can succeed: try a few candidates on a copy
                 let mut pick = rng.pick(&actions).clone();
@@ -313,7 +365,7 @@ fn random(args: &Args) {
                 }
                 pick
             };
-            if env.event(&mut w, &a, i == 0, &mut sink) {
+            if env.event(&mut w, &a, i == 0, &mut pend, &mut sink) {
                 accepted += 1;
             }
         }
